@@ -390,6 +390,35 @@ namespace pika::resource::detail {
                 "allow-empty-pool-policy (not implemented yet)");
         }
         //! FIXME add allow-empty-pools policy. Wait, does this even make sense??
+
+        // The threads assigned to the pools must be the threads the configuration asked for
+        // (pika.os_threads): every processing unit takes one thread only, so a request that maps
+        // several threads to one processing unit (more threads than processing units with
+        // --pika:bind=none, fewer cores than threads) would otherwise silently start fewer
+        // worker threads.
+        if (!(mode_ & mode_allow_oversubscription))
+        {
+            std::size_t const num_threads_requested =
+                ::pika::detail::get_entry_as<std::size_t>(rtcfg_, "pika.os_threads", 0);
+            std::size_t num_threads_assigned = 0;
+            std::size_t const num_thread_pools = initial_thread_pools_.size();
+            for (std::size_t i = 0; i != num_thread_pools; ++i)
+            {
+                num_threads_assigned += get_pool_data(l, i).num_threads_;
+            }
+
+            if (num_threads_assigned != num_threads_requested)
+            {
+                l.unlock();
+                throw_runtime_error("partitioner::setup_pools",
+                    fmt::format("{} thread{} requested (pika.os_threads), but {} could be assigned to "
+                                "the thread pools: every processing unit the thread bindings use "
+                                "takes one thread (with --pika:bind=none at most as many threads as "
+                                "there are processing units can be used).",
+                        num_threads_requested, num_threads_requested != 1 ? "s were" : " was",
+                        num_threads_assigned));
+            }
+        }
     }
 
     // This function is called in pika_init, before the instantiation of the runtime
